@@ -76,7 +76,7 @@ def fat_get_table(facts, width):
     d = None
     chain = [sw] + [x for x in fn.pred(sw)]
     cur = sw
-    for _ in range(4):
+    for _ in range(60):
         d = last_def_in_block(fn, cur, p['l'])
         if d is not None:
             break
